@@ -300,10 +300,17 @@ pub fn c05(ctx: Arc<Ctx>) {
 	}
 	add("mb", Cont::Mbtiles, TileFormat::PBF, 1, &mut srcs, &mut args);
 	add("pm", Cont::Pmtiles, TileFormat::PNG, 0, &mut srcs, &mut args);
+	// a source whose tiles are gzip data but which is labelled uncompressed: served with --override-input-compression gzip
+	let ovr_file = {
+		let tiles: TileMap = stored.iter().map(|k| (*k, codec::encode_with(1, &content_of(*k)))).collect();
+		let mut src = MemSource::new("m", tiles, TileFormat::PBF, TileCompression::Uncompressed);
+		write_container(&rt, Cont::Versatiles, &work.0, "ovr", &mut src).expect("ovr file")
+	};
+	let ovr_src = TileSrc { id: "ovr".into(), format: TileFormat::PBF, tiles: stored.clone(), kind: "versatiles" };
 	let stored_comp = |id: &str| -> u8 {
-		if id.starts_with('v') {
+		if id.starts_with("vp") {
 			id[4..].parse().unwrap()
-		} else if id == "mb" {
+		} else if id == "mb" || id == "ovr" {
 			1
 		} else {
 			0
@@ -339,8 +346,18 @@ pub fn c05(ctx: Arc<Ctx>) {
 			.collect::<Vec<_>>()
 			.join(", ")
 	};
-	for (mode, extra) in [("best", vec![]), ("fast", vec!["--fast".to_string()])] {
-		let mut a = args.clone();
+	let ov = |v: &[&str]| -> Vec<String> { ["--override-input-compression", "gzip"].iter().chain(v.iter()).map(|s| s.to_string()).collect() };
+	for (mode, extra) in [("best", vec![]), ("fast", vec!["--fast".to_string()]), ("flip-y", vec!["--flip-y".to_string()]), ("swap-xy", vec!["--swap-xy".to_string()]), ("override", ov(&[])), ("override flip-y", ov(&["--flip-y"])), ("override swap-xy fast", ov(&["--swap-xy", "--fast"]))] {
+		let is_override = mode.starts_with("override");
+		// where a stored tile is served: flip maps y -> 2^z-1-y, swap exchanges x and y
+		let tf = move |k: Key| -> String {
+			match mode {
+				"flip-y" | "override flip-y" => format!("{}/{}/{}", k.0, k.1, ((1u64 << k.0) - 1 - k.2 as u64)),
+				"swap-xy" | "override swap-xy fast" => format!("{}/{}/{}", k.0, k.2, k.1),
+				_ => format!("{}/{}/{}", k.0, k.1, k.2),
+			}
+		};
+		let mut a = if is_override { vec![format!("[ovr]{ovr_file}")] } else { args.clone() };
 		a.extend(extra);
 		let mut server = match Server::start(&work.0, &a, &format!("c05{mode}")) {
 			Ok(s) => s,
@@ -351,8 +368,9 @@ pub fn c05(ctx: Arc<Ctx>) {
 		};
 		let port = server.port;
 		let ctxr: &Ctx = &ctx;
-		let (sr, aer) = (&srcs, &aes);
-		par_for(srcs.len(), |si| {
+		let only_ovr = [TileSrc { id: ovr_src.id.clone(), format: ovr_src.format, tiles: ovr_src.tiles.clone(), kind: ovr_src.kind }];
+		let (sr, aer): (&[TileSrc], _) = (if is_override { &only_ovr[..] } else { &srcs[..] }, &aes);
+		par_for(sr.len(), |si| {
 			let s = &sr[si];
 			let mut cl = Client::connect(port).expect("connect");
 			let mime = match s.format {
@@ -421,9 +439,12 @@ pub fn c05(ctx: Arc<Ctx>) {
 							continue;
 						}
 						let aev = ae.as_ref().map(|t| render_ae(t, case, weight));
-						judge(&format!("/tiles/{}/3/1/2", s.id), aev.clone(), Some((3, 1, 2)), true, false);
+						if !matches!(mode, "best" | "fast" | "override flip-y") && (case > 0 || weight > 0) {
+							continue;
+						}
+						judge(&format!("/tiles/{}/{}", s.id, tf((3, 1, 2))), aev.clone(), Some((3, 1, 2)), true, false);
 						if case == 0 && weight == 0 {
-							judge(&format!("/tiles/{}/3/2/2", s.id), aev, None, true, false);
+							judge(&format!("/tiles/{}/3/4/4", s.id), aev, None, true, false);
 						}
 					}
 				}
@@ -431,12 +452,12 @@ pub fn c05(ctx: Arc<Ctx>) {
 			// 2. coordinate classes x extension
 			let m32 = u32::MAX.to_string();
 			let coords: Vec<(String, Option<Key>, bool, bool)> = vec![
-				("0/0/0".into(), Some((0, 0, 0)), true, false),
-				("3/7/7".into(), Some((3, 7, 7)), true, false),
-				("9/255/256".into(), Some((9, 255, 256)), true, false),
-				("14/8800/5370".into(), Some((14, 8800, 5370)), true, false),
-				("3/0/0".into(), None, true, false),
-				("9/255/255".into(), None, true, false),
+				(tf((0, 0, 0)), Some((0, 0, 0)), true, false),
+				(tf((3, 7, 7)), Some((3, 7, 7)), true, false),
+				(tf((9, 255, 256)), Some((9, 255, 256)), true, false),
+				(tf((14, 8800, 5370)), Some((14, 8800, 5370)), true, false),
+				("3/3/3".into(), None, true, false),
+				("9/100/100".into(), None, true, false),
 				("2/1/1".into(), None, true, false),
 				("3/8/2".into(), None, true, false),
 				("3/1/8".into(), None, true, false),
